@@ -247,6 +247,7 @@ Section Cons.
     ShP A a opt v /\ exists w, wsz md v = Some w /\ c = pcons a w.
   Definition CL (t : basic_type) (l : list rval) (c : N) : Prop :=
     ShL A t l /\ sum_opt (map (wsz md) l) = Some c.
+  Definition CLn (n : nat) (t : basic_type) (l : list rval) (c : N) : Prop := CL t l c /\ List.length l = n.
   Definition CF (fs : list struct_field) (vs : list rval) (c : N) : Prop :=
     ShF A fs vs /\
     zip_sizes (map (fun f => (safe_name (sf_name f), contains_opaque (sf_value f))) fs) (map (wsz md) vs) = Some c.
@@ -284,11 +285,12 @@ Section Cons.
         intros v c [Hv Hw]. split; [now constructor|]. exists c. split; [exact Hw|reflexivity].
     Qed.
 
-    Lemma cons_seq_n t n m : is_opaque t = false -> cons (CB t) m -> cons (CL t) (seq_n n m).
+    Lemma cons_seq_n t n m : is_opaque t = false -> cons (CB t) m -> cons (CLn n t) (seq_n n m).
     Proof.
-      intros Ho Hm. induction n as [|n IH]; cbn [seq_n]; [apply cons_ret; split; [constructor|reflexivity]|].
+      intros Ho Hm. induction n as [|n IH]; cbn [seq_n]; [apply cons_ret; split; [split; [constructor|reflexivity]|reflexivity]|].
       eapply cons_bind; [exact Hm|]. intros x cx [Hx [w [Hw Hc]]].
-      eapply cons_bind; [exact IH|]. intros xs cxs [Hxs Hs]. apply cons_ret. split; [now constructor|].
+      eapply cons_bind; [exact IH|]. intros xs cxs [[Hxs Hs] Hlen]. apply cons_ret.
+      split; [|cbn; now rewrite Hlen]. split; [now constructor|].
       cbn [map sum_opt]. rewrite Hw, Hs. cbn [option_map]. f_equal.
       assert (pcons (ANone t) w = w) by (destruct t; try reflexivity; discriminate). lia.
     Qed.
@@ -299,34 +301,38 @@ Section Cons.
     Proof.
       intros He Hpos Hr. destruct a as [t|t s|t s]; cbn [decode_array unwrap_array] in *.
       - eapply cons_impl; [|eapply cons_basic; eassumption]. intros v c [Hv Hw]. split; [now constructor|exact Hw].
-      - destruct (resolve_size A s true) as [n| |]; cbn [ebind] in He; try discriminate.
+      - destruct (resolve_size A s true) as [n| |] eqn:Ers; cbn [ebind] in He; try discriminate.
         unfold decode_fixed in He. destruct Hpos as [_ [_ [Hts _]]].
         assert (Hcase : t = Opaque \/ t <> Opaque) by (destruct t; (now left) || (right; discriminate)).
         destruct Hcase as [->|Hno].
         + inversion He; subst e. cbn [eval_dexp]. eapply cons_bind; [apply cons_read_bytes|].
-          intros w c [Hl ->]. apply cons_ret. split; [apply SP_fixed_opaque|].
-          exists (wsz_bytes w). split; [reflexivity|]. cbn [pcons]. unfold wsz_bytes. rewrite Hl. lia.
+          intros w c [Hl ->]. apply cons_ret. split.
+          * apply SP_fixed_opaque. intros n0 E0. rewrite Ers in E0. inversion E0; subst. reflexivity.
+          * exists (wsz_bytes w). split; [reflexivity|]. cbn [pcons]. unfold wsz_bytes. rewrite Hl. lia.
         + assert (Ho : is_opaque t = false) by (destruct t; try reflexivity; congruence).
           assert (He' : (if n =? 0 then EOk (EArr 0 (EPrim PU32))
                          else ebind (decode_basic A t UseAlias) (fun e0 => EOk (EArr n e0))) = EOk e).
           { destruct t; try exact He; congruence. }
           clear He.
-          assert (Hfin : forall l x, ShL A t l -> sum_opt (map (wsz md) l) = Some x ->
+          assert (Hfin : forall l x, ShL A t l -> N.of_nat (List.length l) = n -> sum_opt (map (wsz md) l) = Some x ->
                                      CP (AFixed t s) false (RVArr l) (0 + x)).
-          { intros l x Hl Hx. split; [apply SP_fixed; assumption|].
+          { intros l x Hl Hlen Hx. split.
+            { apply SP_fixed; [assumption|assumption|]. intros n0 E0. rewrite Ers in E0. inversion E0; subst. reflexivity. }
             destruct (proj1 (proj2 (proj2 (proj2 (shaped_size A md Hgen Hsup)))) t l Hl Ho) as [x' [Hx' Hm]].
             rewrite Hx in Hx'. inversion Hx'; subst x'.
             exists (wsz_slice x). cbn [wsz]. rewrite Hx. cbn [option_map]. split; [reflexivity|].
             assert (pcons (AFixed t s) (wsz_slice x) = wsz_slice x) by (destruct t; try reflexivity; congruence).
             unfold wsz_slice in *. rewrite (pad_length_mult4 _ Hm) in *. lia. }
-          destruct (n =? 0).
+          destruct (n =? 0) eqn:En0.
           * inversion He'; subst e. cbn [eval_dexp]. change (N.to_nat 0) with 0%nat. cbn [seq_n].
-            eapply (cons_bind (CL t)); [apply cons_ret; split; [apply SL_nil|reflexivity]|].
-            intros l c [Hl Hx]. apply cons_ret. rewrite N.add_0_r. replace c with (0 + c) by lia. now apply Hfin.
+            eapply (cons_bind (fun l c => l = [] /\ c = 0)); [apply cons_ret; split; reflexivity|].
+            intros l c [-> ->]. apply cons_ret. apply N.eqb_eq in En0. subst n.
+            apply (Hfin [] 0); [apply SL_nil|reflexivity|reflexivity].
           * destruct (decode_basic A t UseAlias) as [e0| |] eqn:E0; cbn [ebind] in He'; try discriminate.
             inversion He'; subst e. cbn [eval_dexp].
             eapply cons_bind; [apply cons_seq_n; [exact Ho|eapply cons_basic; eassumption]|].
-            intros l c [Hl Hx]. apply cons_ret. rewrite N.add_0_r. replace c with (0 + c) by lia. now apply Hfin.
+            intros l c [[Hl Hx] Hlen]. apply cons_ret. rewrite N.add_0_r. replace c with (0 + c) by lia.
+            apply Hfin; [assumption| |assumption]. rewrite Hlen. apply N2Nat.id.
       - destruct Hpos as [Hsafe [_ [[Ht|[Ht|[m Ht]]] _]]]; subst t.
         + assert (Hx : exists mx, e = EVarBytes mx).
           { destruct s as [sz|]; [destruct (resolve_size A sz false); cbn [ebind] in He; try discriminate|];
